@@ -274,6 +274,12 @@ def run(ctx):
     args = ["c05", ctx.seed, n_pw, n_pt, n_other]
     obs = pmcases.tagged(args, run_harness(ctx, binp, args, timeout=2400))
     npw = oracle(ctx, obs)
+    mr = ctx.cov.get("max_rel_error_of_library_tan_rho")
+    if mr and mr[0] > 1e-3:
+        ctx.note(f"Beam::walkoff_angle differs from -(1/n) dn/dtheta (central differences, steps 1e-3/2e-3 rad) by up to {mr[0]:.2e} relative "
+                 f"({mr[1]}, crystal theta {mr[2]:.3f} deg: tan rho {mr[3]!r} vs {mr[4]!r}): for |theta| < 0.05 rad its fixed step of 3e-7 rad "
+                 "amplifies the rounding of the index near the optic axis (~1e-11).  The effect on this property's peak is "
+                 f"{ctx.cov.get('max_peak_shift_from_walkoff_angle_error', 0.0):.1e} (< 2e-4): not a C05 violation; the angle itself is C02's subject (F21)")
     if npw < n_pw // 2 or ctx.cov["histogram"].get("integrator:v_gl40", 0) == 0:
         ctx.violation("S5", f"too few evaluated inputs: {npw} phase-matched directions of {n_pw} requested, "
                       f"{ctx.cov['histogram'].get('integrator:v_gl40', 0)} samples with the other integrators", {"kind": "too_few_inputs"},
